@@ -7,6 +7,7 @@ import (
 	"strings"
 	"testing"
 
+	"github.com/flosch/pongo2/v6"
 	"pgregory.net/rapid"
 )
 
@@ -43,6 +44,11 @@ func genC13Bind(t *rapid.T) *c13Bind {
 		p := MParam{Name: c13ParamNames[i]}
 		if drawBool(t, "hasdef") {
 			d := c13Arg(t)
+			if drawInt(t, 0, 2, "defnamesparam") == 0 {
+				// the default mentions a name that is also a parameter of this macro: it still means
+				// the variable of the defining scope (defaults are evaluated there)
+				d = ME{K: "name", N: pick(t, "defparam", c13ParamNames)}
+			}
 			p.Def = &d
 		}
 		mac.Params = append(mac.Params, p)
@@ -185,6 +191,11 @@ func checkC13Bind(c any, r *Rec) error {
 		want, werr := mmReference(f.root, f.files, empty, cs.Ctx)
 		got, gerr, _, _ := mmEngine(f.root, f.files, empty, cs.Ctx)
 		desc := fmt.Sprintf("form=%s root=%q files=%v", form, mmSrc(f.root), c12FilesSrc(f.files))
+		// the same compiled template executed again, with another context: macros (also imported
+		// ones) see the context of the execution they are called in
+		if err := c13SecondContext(cs, f.root, f.files); err != nil {
+			return fmt.Errorf("%v\n %s", err, desc)
+		}
 		if gerr != nil && strings.HasPrefix(gerr.Error(), "compile:") {
 			return fmt.Errorf("does not compile: %v\n %s", gerr, desc)
 		}
@@ -421,4 +432,37 @@ func TestC13RecursionEnum(t *testing.T) {
 			}
 		}
 	})
+}
+
+func c13SecondContext(cs *c13Bind, root []MNode, files map[string][]MNode) error {
+	fs := map[string]string{}
+	for name, ns := range files {
+		fs[name] = mmSrc(ns)
+	}
+	fs["/root.tpl"] = mmSrc(root)
+	tpl, err := pongo2.NewSet("c13b", newMemLoader(fs)).FromFile("/root.tpl")
+	if err != nil {
+		return nil // reported by the main path
+	}
+	other := Val{K: "mapSA"}
+	for i, k := range cs.Ctx.Ks {
+		v := cs.Ctx.E[i]
+		if v.K == "str" {
+			v = vStr("2nd-" + v.Str())
+		}
+		other.Ks = append(other.Ks, k)
+		other.E = append(other.E, v)
+	}
+	empty := Val{K: "mapSA"}
+	for i, c := range []Val{cs.Ctx, other, cs.Ctx} {
+		want, werr := mmReference(root, files, empty, c)
+		got, gerr := tpl.Execute(BuildContext(c))
+		if (werr != nil) != (gerr != nil) {
+			return fmt.Errorf("execution %d on one compiled template: error expected %v, got %v", i+1, werr != nil, gerr)
+		}
+		if werr == nil && got != want {
+			return fmt.Errorf("execution %d on one compiled template (context %s): got %q, reference %q", i+1, descVal(c), got, want)
+		}
+	}
+	return nil
 }
